@@ -101,6 +101,15 @@ ExportGlobals ==
                data |-> d, cfg |-> c, expect |-> [ok |-> TRUE, err |-> "", out |-> ""],
                looked_up |-> SetAsSeq(g)]) \o "\n")
 
+\* C17: where every top-level node of the program begins in the text LiquidSrc writes for it, and
+\* where its first markup ends (the node's token)
+RECURSIVE StartsOf(_, _)
+StartsOf(p, at) == IF p = <<>> THEN <<>> ELSE <<at>> \o StartsOf(Tail(p), at + Len(NSrc(p[1])))
+ExportStarts ==
+  prog # <<>> =>
+    Emit(ToJson([focus |-> Focus, src |-> Src(prog), starts |-> StartsOf(prog, 0), kinds |-> [i \in DOMAIN prog |-> prog[i].k],
+                 lens |-> [i \in DOMAIN prog |-> Len(NSrc(prog[i]))]]) \o "\n")
+
 \* C16 on the reference: a render that touches no undefined is the same under
 \* every policy
 PolicyIrrelevantWithoutTouch ==
